@@ -35,6 +35,8 @@ class _SubroutineDeclByOption:
         }
         self.has_return: bool | None = None
         self.type_of: TealType | None = None
+        # options whose declaration is currently being evaluated (re-entrancy guard)
+        self._evaluating: set[bool] = set()
 
     def get_declaration(self) -> "SubroutineDeclaration":
         warnings.warn(
@@ -50,9 +52,19 @@ class _SubroutineDeclByOption:
         decl = self.option_map[fp_option]
         if decl is not None:
             return decl
-        self.option_map[fp_option] = self.option_method[fp_option].evaluate(
-            self.subroutine
-        )
+        if fp_option in self._evaluating:
+            # the body of a recursive subroutine asked for its own declaration while it is being
+            # built (e.g. ReturnedValue.store_into of a recursive ABIReturnSubroutine)
+            raise TealInternalError(
+                f"Declaration of subroutine {self.subroutine.name()} requested while it is being evaluated"
+            )
+        self._evaluating.add(fp_option)
+        try:
+            self.option_map[fp_option] = self.option_method[fp_option].evaluate(
+                self.subroutine
+            )
+        finally:
+            self._evaluating.discard(fp_option)
         return cast(SubroutineDeclaration, self.option_map[fp_option])
 
     def __probe_info(self, fp_option: bool) -> tuple[bool, TealType]:
